@@ -50,8 +50,9 @@ def spec_oracle(cfg, r, r1):
         if got is None or (got != v):
             out.append((f"attr-{k}-{be}", f"attribute {k} is {got!r}, expected {v!r} ({be} back end)"))
     ar = a.get("acceptance_rate")
-    if ar is None or not same_float(float(ar), r.acc / P):
-        out.append(("attr-acceptance_rate", f"acceptance_rate attribute {ar} != accepted/completed = {r.acc}/{P}"))
+    accepted = sum(1 for sn in r.snaps if sn["acc_after"] > sn["acc_before"]) if len(r.snaps) == P else r.acc
+    if ar is None or not same_float(float(ar), accepted / P):
+        out.append(("attr-acceptance_rate", f"acceptance_rate attribute {ar} != accepted/completed = {accepted}/{P} (accepted counted from the transitions of this run)"))
     if cfg["kind"] == "hmc":
         tun = {"stepsize": cfg["stepsize"], "amount_of_steps": cfg["steps"], "mass_matrix": "scripted mass matrix",
                "integrator": FULLNAME[cfg["integrator"]]}
@@ -74,7 +75,7 @@ def run(tier, seed):
     wd = common.tmpdir("c07_")
     lits = sr.source_literals()
     cases, coq, violations, samples, seen = [], [], [], [], set()
-    dist = {"h5": 0, "npy": 0, "thin>1": 0, "rwmh": 0, "hmc": 0, "single_column": 0, "overwrites_earlier_file": 0}
+    dist = {"h5": 0, "npy": 0, "thin>1": 0, "rwmh": 0, "hmc": 0, "single_column": 0, "overwrites_earlier_file": 0, "sampler_reused": 0}
     try:
         for i in range(n):
             t = rnd.choice([1, 2, 3, 4, 5, 6])
@@ -83,7 +84,18 @@ def run(tier, seed):
             if rnd.random() < 0.4:
                 cfg["stale"] = {"seed": rnd.randrange(1000), "P": rnd.choice([4, 8, 20, 40]), "t": rnd.choice([1, 2]),
                                 "d": cfg["d"] + (1 if rnd.random() < 0.25 else 0)}
-            r = sr.run_impl(cfg, wd)
+            if rnd.random() < 0.3:
+                # the sampler object has already made an earlier (burn-in) run: the file describes THIS run only
+                cfg0 = dict(cfg, P=cfg["t"] * rnd.choice([1, 2, 3]))
+                cfg0.pop("stale", None)
+                r0 = sr.run_impl(cfg0, wd, tag="first")
+                n0 = len(r0.snaps)
+                r = sr.run_impl(cfg, wd, reuse=r0)
+                r.snaps = r.snaps[n0:]
+                cfg["after_earlier_run_of_the_same_sampler"] = cfg0["P"]
+                dist["sampler_reused"] += 1
+            else:
+                r = sr.run_impl(cfg, wd)
             r1 = None
             if cfg["t"] > 1:
                 cfg1 = dict(cfg, t=1, backend="h5")
@@ -119,7 +131,8 @@ def run(tier, seed):
         violations.append(Violation("coq-error", "correspondence shard failed: " + log[-300:], {"log": log, "no_failing_input_found": True}))
     return {
         "evaluations": n, "distinct_nontrivial": len(seen),
-        "rule": "seeded complete runs, thinning t in 1..6 with t | P, alternating HDF5/NPY back ends, RWMH and HMC; each thinned "
+        "rule": "seeded complete runs, thinning t in 1..6 with t | P, alternating HDF5/NPY back ends, RWMH and HMC, 40% over an earlier file at the same path, 30% on a sampler "
+                "object that already made a run; each thinned "
                 "run is repeated unthinned with the same scripted random numbers; non-trivial = t > 1 and at least one accepted proposal",
         "samples": samples, "violations": violations,
         "traces_validated_against_impl": len(idx) - len(bad),
@@ -132,8 +145,18 @@ def replay(doc):
     cfg = doc["replay"]["case"]
     wd = common.tmpdir("c07r_")
     try:
-        r = sr.run_impl(cfg, wd)
-        r1 = sr.run_impl(dict(cfg, t=1, backend="h5"), wd) if cfg["t"] > 1 else None
+        if cfg.get("after_earlier_run_of_the_same_sampler"):
+            cfg0 = dict(cfg, P=cfg["after_earlier_run_of_the_same_sampler"])
+            cfg0.pop("stale", None)
+            r0 = sr.run_impl(cfg0, wd, tag="first")
+            n0 = len(r0.snaps)
+            r = sr.run_impl(cfg, wd, reuse=r0)
+            r.snaps = r.snaps[n0:]
+        else:
+            r = sr.run_impl(cfg, wd)
+        cfg1 = dict(cfg, t=1, backend="h5")
+        cfg1.pop("stale", None)
+        r1 = sr.run_impl(cfg1, wd) if cfg["t"] > 1 else None
         probs = spec_oracle(cfg, r, r1)
     finally:
         shutil.rmtree(wd, ignore_errors=True)
